@@ -1198,6 +1198,10 @@ class StatemachineContext:
         return ctx
 
     @staticmethod
+    def reset():
+        StatemachineContext._singleton = None
+
+    @staticmethod
     def get():
         ctx = StatemachineContext._singleton
         assert ctx is not None, "internal error: requested statemachine context"
